@@ -1,28 +1,49 @@
 #!/usr/bin/env python3
 """C11 - AArch64 long branches reach their intended target.
 
-Family (bounded-exhaustive, one probe per program):
+Family (bounded-exhaustive; every member is one program, linked by wild --threads=4 in the server):
   main     5 block positions; the caller's and the callee's code object sit in every ordered pair of
-           distinct positions (20), every other position p holds a padding object of PADS[p] MiB of
-           `.text` (64, 64, 127, 127, 64): distances from 16 B to 318 MiB, forwards and backwards,
-           at depths 0..318 MiB into .text  x  callee kind {local (whole layout in one object),
-           global, 32-byte aligned section (non-primary part), custom section `foo_calls`, PLT to a
-           shared object, IFUNC via iplt}  x  {bl CALL26, b JUMP26}  x  {non-PIE, PIE}  = 480.
-  edge     [code][pad 128 MiB - 16 + e][code], e in -20..+8 step 4 (the displacement moves across
-           both ends of the +/-128 MiB range whether or not a 12-byte thunk sits in between)
-           x {global, local} x {bl, b} x {forwards, backwards} x {non-PIE, PIE} = 128.
-  control  CONDBR19 (b.al) / TSTBR14 (tbz) have no thunks in the ABI: adjacent placements only,
-           where they are in range by construction = 48. A rejection here is not judged.
-Oracle: the output is executed from its entry point (= the caller's branch) with imgsim's
-instruction decoder over an mmap of the file: bl/b -> optional thunk -> optional PLT stub whose GOT
-slot is resolved by a loader model (JUMP_SLOT -> the named symbol of the shared object; IRELATIVE ->
-the value the emulated resolver returns) until control reaches the marker instruction that only the
-intended callee's body contains (for PLT: the shared object's `callee`). Anything else - other
-landing, undecodable instruction, fault, > 8 control transfers, for `bl` a link register that is not
-caller+4 - is `misdirected`. A wild rejection with a range-style diagnostic of a member that ld.lld
-links (and whose lld output passes the same walker) is `out-of-range-error`.
-lld runs only on members wild rejects, plus one accepted far member per kind to calibrate the walker."""
+           distinct positions (20); every other position p holds a padding object of PADS[p] =
+           (64, 64, 127, 127, 64) MiB of `.text`: the branch spans 32 B .. 318 MiB forwards and
+           backwards, the caller sits 0 .. 318 MiB into .text
+           x callee kind {local (STB_LOCAL: the whole layout is one object, blocks = sections),
+             global, function in a 32-byte aligned .text section (a non-primary part), function in
+             the custom executable section `foo_calls`, PLT call into libcallee.so, IFUNC via iplt}
+           x form {bl R_AARCH64_CALL26, b R_AARCH64_JUMP26}  x  output {non-PIE, PIE}       = 480.
+           The caller has three call sites of the form (decoy_a, callee, decoy_z; the entry point is
+           the middle one) to three functions of the callee's kind defined together in symbol-table
+           order, so the probe's thunk / PLT entry is neither first nor last of its block; all three
+           sites are walked.
+  edge     [code][pad of 128 MiB - 16 + e][code], e = -20..+8 step 4: the displacement crosses both
+           ends of [-128 MiB, +128 MiB - 4] whether or not a 12-byte thunk sits in between
+           x {global, local} x {bl, b} x {forwards, backwards} x {non-PIE, PIE}               = 128.
+  ncall    the three call sites live in a non-primary part (a 32-byte aligned .text section / the
+           custom section `bar_calls`, both laid out in front of the primary .text part) and call a
+           global function at each of the 5 positions (the caller's object at the cyclically next
+           one) x {bl, b} x {non-PIE, PIE}                                                     = 40.
+  a16      the main layout with every .text section (pads and code) 16-byte aligned, global callee,
+           20 placements x {bl, b} x {non-PIE, PIE}                                            = 80.
+  control  CONDBR19 (b.al) / TSTBR14 (tbz w0,#0) have no thunks in the ABI: only adjacent
+           placements, in range by construction (local/global at 0>1 1>0 3>4 4>3, align32/custom at
+           0>1 1>0) x 2 forms x 2 outputs = 48. A rejection of a control is counted, never judged.
+Member id: <family>:<kind>:<form>:<caller pos>><callee pos>[e<e>]:<distance class>:<output>.
+Oracle: the output is executed from its entry point (= the call site) with imgsim's instruction
+decoder over an mmap of the file: bl/b -> optional thunk -> optional PLT stub whose GOT slot is
+resolved by a loader model (JUMP_SLOT -> the named symbol of the shared object; IRELATIVE -> the
+value the emulated resolver returns) until control reaches the marker instruction that only the
+intended function's body contains (for PLT: the shared object's symbol of that name). Anything
+else - another landing, an undecodable instruction, a fault, > 8 control transfers, for `bl` a link
+register that is not site+4 - is `misdirected:<kind>:<form>:<class>`. A wild rejection with a
+range-style diagnostic of a member that ld.lld links (and whose lld output passes the same walker)
+is `out-of-range-error:<kind>:<form>:<class>`.
+ld.lld runs only on members wild rejects, plus one accepted far member per kind (quick: two kinds)
+to calibrate the walker (a walker that rejects lld's output is a machinery error, exit 2).
+Outputs are 130-330 MB each: /dev/shm, IN_FLIGHT links at a time, deleted as soon as walked; pads are
+sparse files shared by hard links. Wall caps (C11_CAP_S) stop the enumeration and are reported.
+Env: C11_ONLY=<regex on member id>, C11_PROGRESS=1, C11_IN_FLIGHT=<n>, C11_KEEP=<dir> (with --replay:
+keep the member's inputs there and print the wild / ld.lld command lines)."""
 import json
+import multiprocessing
 import os
 import re
 import shutil
@@ -39,6 +60,7 @@ MiB = T.MiB
 PADS = (64 * MiB, 64 * MiB, 127 * MiB, 127 * MiB, 64 * MiB)
 EDGE_E = tuple(range(-20, 12, 4))
 OUTS = ("exe", "pie")
+DECOY_FAMILIES = ("main", "ncall", "a16")
 IN_FLIGHT = int(os.environ.get("C11_IN_FLIGHT", 4))   # outputs are 130-330 MB each
 RANGE_ERR = re.compile(r"out of range|outside of bounds|no thunk|thunk|overflow|does not fit|too (far|large)", re.I)
 BASE = None          # scratch directory (set in main; inherited by the forked workers)
@@ -54,7 +76,11 @@ def dist_class(spec):
         d = 128 * MiB + spec["e"]
         inside = d <= (128 * MiB - 4 if fwd else 128 * MiB)
         return f"{'+' if fwd else '-'}edge-{'in' if inside else 'out'}"
-    d = T.nominal_distance(spec_blocks(spec), 32 if spec["family"] == "main" else 16)
+    if spec["family"] == "ncall":       # the call sites are in front of .text: what counts is the callee's depth
+        blocks = spec_blocks(spec)
+        d = T.nominal_distance([("caller",)] + [b for b in blocks if b[0] != "caller"], 32)
+    else:
+        d = T.nominal_distance(spec_blocks(spec), 32 if spec["family"] in DECOY_FAMILIES else 16)
     n = abs(d)
     name = "near" if n < MiB else "mid" if n < 126 * MiB else "margin" if n < 128 * MiB else \
         "far" if n < 256 * MiB else "vfar"
@@ -99,10 +125,25 @@ def enumerate_control():
     return out
 
 
+def enumerate_ncall():
+    """Call sites in a non-primary part (32-byte aligned section / custom section, both laid out in
+    front of the primary .text part) to a global function at every position; the caller's object sits
+    at the cyclically next position."""
+    return [member("ncall", f"global-from-{cs}", f, (p + 1) % 5, p, o) for cs in ("align32", "custom")
+            for p in range(5) for f in ("bl", "b") for o in OUTS]
+
+
+def enumerate_a16():
+    """The main layout with every section - the pads' and the code objects' `.text` - 16-byte aligned
+    (the alignment GCC gives AArch64 functions at -O2): a global callee at every placement."""
+    pairs = sorted(((a, b) for a in range(5) for b in range(5) if a != b), key=lambda p: (-abs(p[0] - p[1]), p))
+    return [member("a16", "global-a16", f, a, b, o) for (a, b) in pairs for f in ("bl", "b") for o in OUTS]
+
+
 def quick_members():
-    """24 members, the far ones first (a capped run has still seen every kind): every kind x form once
+    """28 members, the far ones first (a capped run has still seen every kind): every kind x form once
     on a far placement (direction, depth and output kind rotate with the cell index), six edge
-    members, every kind once near/mid."""
+    members, two ncall and two a16 members, every kind once near/mid."""
     far = [(0, 4), (4, 0), (1, 4), (4, 2)]
     near = [(2, 3), (3, 1), (0, 2)]
     out = []
@@ -114,6 +155,10 @@ def quick_members():
                                            ("global", "b", (1, 0), 0), ("global", "b", (1, 0), 4),
                                            ("local", "bl", (0, 1), -4), ("local", "b", (1, 0), 4))):
         out.append(member("edge", k, f, a, b, OUTS[i % 2], e))
+    out.append(member("ncall", "global-from-align32", "bl", 0, 4, "exe"))
+    out.append(member("ncall", "global-from-custom", "b", 4, 3, "pie"))
+    out.append(member("a16", "global-a16", "bl", 0, 3, "pie"))
+    out.append(member("a16", "global-a16", "b", 4, 1, "exe"))
     for ki, k in enumerate(T.KINDS):
         a, b = near[ki % len(near)]
         out.append(member("main", k, ("bl", "b")[ki % 2], a, b, OUTS[(ki + 1) % 2]))
@@ -121,13 +166,17 @@ def quick_members():
 
 
 # ------------------------------------------------------------------------------------ running
-def pad_path(size):
-    p = os.path.join(BASE, "shared", f"pad{size}.o")
+def pad_path(size, align=4):
+    p = os.path.join(BASE, "shared", f"pad{size}a{align}.o")
     if not os.path.exists(p):
         tmp = f"{p}.{os.getpid()}"
-        T.write_pad(tmp, size)
+        T.write_pad(tmp, size, align)
         os.replace(tmp, p)
     return p
+
+
+def pad_path16(size):
+    return pad_path(size, 16)
 
 
 def so_path():
@@ -162,7 +211,7 @@ def evaluate(path, spec):
     try:
         entry = im.elf.e_entry
         sites = [("callee", entry)]
-        if spec["family"] == "main":
+        if spec["family"] in DECOY_FAMILIES:
             sites += [("decoy_a", entry - 8), ("decoy_z", entry + 8)]
         out = None
         bad = []
@@ -202,9 +251,13 @@ def run_member(spec, keep=False):
     d = os.path.join(BASE, f"m{os.getpid()}")
     shutil.rmtree(d, ignore_errors=True)
     os.makedirs(d)
+    names = []
     try:
-        names = T.build_inputs(d, spec_blocks(spec), spec["kind"], spec["form"], pad_path, so_path(),
-                                decoys=spec["family"] == "main")
+        kind, _, csec = spec["kind"].partition("-from-")
+        a16 = spec["family"] == "a16"
+        names = T.build_inputs(d, spec_blocks(spec), kind.split("-")[0], spec["form"], pad_path16 if a16 else pad_path,
+                                so_path(), decoys=spec["family"] in DECOY_FAMILIES, caller_sec=csec or "text",
+                                text_align=16 if a16 else 4)
         out = os.path.join(d, "out")
         t0 = time.time()
         rc, msg = wildrun.server_link(["--threads=4", *link_argv(spec, names, "out")], cwd=d, timeout=600)
@@ -340,11 +393,11 @@ def main():
                             "samples": stats["samples"], "exhaustive": False}
             chk.finish()
         if chk.thorough:
-            members = enumerate_main() + enumerate_edge() + enumerate_control()
+            members = enumerate_main() + enumerate_edge() + enumerate_ncall() + enumerate_a16() + enumerate_control()
             cap = float(os.environ.get("C11_CAP_S", 840))
         else:
             members = quick_members()
-            cap = float(os.environ.get("C11_CAP_S", 50))
+            cap = float(os.environ.get("C11_CAP_S", 35))   # members in flight at the cap still finish (<= ~20 s under load)
         only = os.environ.get("C11_ONLY")
         if only:
             members = [m for m in members if re.search(only, m["id"])]
@@ -360,7 +413,8 @@ def main():
             random.Random(chk.seed).shuffle(members)
         DEADLINE = chk.t0 + cap
         machinery = []
-        for res in vlib.pmap_unordered(_worker, members, procs=IN_FLIGHT):
+        pool = multiprocessing.Pool(IN_FLIGHT)
+        for res in pool.imap_unordered(_worker, members, chunksize=1):
             if res["status"] == "machinery":
                 machinery.append(res["error"])
                 continue
@@ -370,6 +424,8 @@ def main():
                 print(f"[{time.time() - chk.t0:7.1f}s] {res['spec']['id']:46s} {res['status']:11s} "
                       f"{ev.get('stubs', '')!s:4s} wild={res.get('wild_s')}s lld={res.get('lld_rc')} "
                       f"{(res.get('msg') or ev.get('detail') or '')[-110:]!r}", file=sys.stderr, flush=True)
+        pool.close()
+        pool.join()
         if machinery:
             chk.machinery(f"{len(machinery)} members could not be run: {machinery[0]}")
         if stats["lld_walk_failures"]:
@@ -381,14 +437,16 @@ def main():
             "evaluations": stats["evaluations"],
             "distinct_nontrivial": len(stats["nontrivial"]),
             "family_size": family_size,
-            "rule": ("main: 20 ordered placements in 5 block positions (pads 64,64,127,127,64 MiB elsewhere) x 6 callee "
-                     "kinds x {bl,b} x {exe,pie}; edge: pad 128MiB-16+e, e=-20..8 step 4 x {global,local} x {bl,b} x "
-                     "{fwd,back} x {exe,pie}; control: CONDBR19/TSTBR14 on adjacent placements"
-                     if chk.thorough else
-                     "quick: per kind x form one far placement (direction/depth/output rotate), per kind one near/mid "
-                     "placement, six edge members"),
-            "nontrivial_definition": "members whose walk passed through a thunk (T) and/or a PLT stub (P), or that "
-                                     "were judged as a violation",
+            "rule": (("main: 20 ordered placements of caller and callee in 5 block positions (pads 64,64,127,127,64 MiB "
+                      "elsewhere) x 6 callee kinds x {bl,b} x {exe,pie}, three call sites each; edge: pad 128MiB-16+e, "
+                      "e=-20..8 step 4 x {global,local} x {bl,b} x {fwd,back} x {exe,pie}; ncall: call sites in a non-primary "
+                      "part x 5 callee positions x {bl,b} x {exe,pie}; a16: main layout, all .text 16-byte aligned, global callee, "
+                      "20 placements x {bl,b} x {exe,pie}; control: CONDBR19/TSTBR14 on adjacent placements. "
+                      if chk.thorough else
+                      "quick (a thinned subset of the thorough family): per kind x form one far placement (direction, "
+                      "depth and output kind rotate), six edge members, two ncall and two a16 members, per kind one near/mid placement. ")
+                     + "A member is non-trivial when the probe's walk passed through a thunk (T) and/or a PLT stub (P), "
+                       "or when it was judged a violation; distinct = distinct member ids"),
             "stub_sequences": stats["stubs"],
             "status": stats["status"],
             "wild_rejected": stats["rejected"][:60],
